@@ -315,6 +315,9 @@ def oracle_views(run, las, lm, case):
                 run.fail("data-columns", case, dict(observed=cols))
         except Exception as e:
             run.fail("data-columns", case, dict(exc=repr(e)))
+    elif not st:
+        if exc(lambda: las.data.shape) != (0, 0):      # no curves: the empty 2-D array
+            run.fail("data-empty", case, None)
     else:
         if exc(lambda: las.data.shape) != "ValueError":
             run.fail("data-unequal", case, None)
@@ -415,7 +418,7 @@ def run(run):
 
     def flush():
         if batch and run.model is not None:
-            answers = run.model.ask([req for _, req, _, _ in batch])
+            answers = run.model.ask([req for _, req, _, _ in batch], chunk=16)
             for (case, _, steps, pair), m in zip(batch, answers):
                 if pair:
                     run.traces += 1
